@@ -20,7 +20,7 @@ def spelled_text(case):
         pk = p0["pkts"][j - 1]
         f = pk["fields"][i - 1]
         key = pk["name"] + "." + f["name"]
-        sp[key] = {kind: True} if kind != "doc" else {"doc": "was zchar[8] uint16, repeat string; char[] match root packet @leftPad('0') @lengthOf(x) options { } , 010"}
+        sp[key] = {kind: True} if kind != "doc" else {"doc": "was zchar[8] uint16, repeat string; char[] match root packet @leftPad('0') @lengthOf(x) options { } , 010 // not a comment /* nor this */ \"q\" # --"}
         return base, dsl.render(p0, sp)
     if kind in ("inline", "inlineall"):
         return base, dsl.render(p1)
@@ -28,13 +28,18 @@ def spelled_text(case):
         return base, dsl.render(p0, {"defopt1": i})
     if kind == "defopts":
         return base, dsl.render(p0, {"defopts": True})
+    if kind == "metalast":
+        return base, dsl.render(p0, {"metalast": True})
     if kind == "nosemi":
         return base, dsl.render(p0, {"nosemi": True})
     if kind == "comments":
         t = base
         n = len([x for x in dsltok.tokenize(t) if x.type != "LINE_COMMENT"])
         for k, idx in enumerate(range(n - 1, 0, -7)):
-            t = dsltok.insert_comment(t, idx, "own" if k % 2 else "same", "note %d: zchar[4] repeat @tag(1) packet {" % k)
+            # comment texts made of the DSL's own keywords, and of what OTHER languages take for comment / string delimiters
+            words = ["note %d: zchar[4] repeat @tag(1) packet {" % k, "topic md/*/depth %d /* opened" % k,
+                     "closed here */ quote/*/ `tick` \"q\" 'c' # -- <!-- %d" % k][k % 3]
+            t = dsltok.insert_comment(t, idx, "own" if k % 2 else "same", words)
         return base, "// header\n" + t + "// trailer\n"
     if kind == "relayout":
         return base, dsltok.relayout(base, ["fewlines", "oneperline", "tabscrlf"][case["base"] % 3], seed())
